@@ -27,21 +27,32 @@ int KSI_TlvElement_serialize(const KSI_TlvElement *element, unsigned char *buf, 
 __CPROVER_requires(element != NULL && element->ftlv.tag <= SPEC_TLV_MAX_TAG)
 __CPROVER_requires(EL_CHILD(element) || element->subList == NULL || element->subList == &g_el_list)
 __CPROVER_requires(IMPLIES(EL_CHILD(element), EL_HDR(opt)))
-__CPROVER_requires(IMPLIES(!EL_CHILD(element), g_el_calls == 0 && g_el_sum == 0))
+__CPROVER_requires(IMPLIES(!EL_CHILD(element), g_el_calls == 0 && g_el_sum == 0 && !g_el_any_bad))
 __CPROVER_requires(IMPLIES(!EL_CHILD(element) && EL_LEAF(element), element->ftlv.dat_len <= EL_MAX_LEAF &&
 		(element->ftlv.dat_len == 0 || (element->ftlv.hdr_len <= 4 && __CPROVER_r_ok(element->ptr, element->ftlv.hdr_len + element->ftlv.dat_len)))))
 __CPROVER_requires((buf == NULL && buf_size == 0) || __CPROVER_is_fresh(buf, buf_size))
 __CPROVER_requires(len == NULL || __CPROVER_is_fresh(len, sizeof(*len)))
-/* C1 */ __CPROVER_ensures(__CPROVER_return_value == KSI_OK || __CPROVER_return_value == KSI_BUFFER_OVERFLOW)
+/* C1 result codes: OK, does not fit the buffer (BUFFER_OVERFLOW), content exceeds the 16-bit length field (INVALID_FORMAT) */
+__CPROVER_ensures(__CPROVER_return_value == KSI_OK || __CPROVER_return_value == KSI_BUFFER_OVERFLOW || __CPROVER_return_value == KSI_INVALID_FORMAT)
+/* C1a a child handed out by the list stub is refused with INVALID_FORMAT exactly when the stub named it "too long" */
+__CPROVER_ensures(IMPLIES(EL_CHILD(element), (__CPROVER_return_value == KSI_INVALID_FORMAT) == (g_el_cur_bad != 0)))
+/* C1b INVALID_FORMAT only for content that exceeds the length field (own content, or a child's) ... */
+__CPROVER_ensures(IMPLIES(!EL_CHILD(element) && __CPROVER_return_value == KSI_INVALID_FORMAT,
+		g_el_any_bad || (EL_HDR(opt) && EL_DAT(element) > SPEC_TLV_MAX_LEN)))
+/* C1c ... and such content is refused with exactly that code when measuring or when the buffer holds the payload */
+__CPROVER_ensures(IMPLIES(!EL_CHILD(element) && !g_el_any_bad && EL_HDR(opt) && EL_DAT(element) > SPEC_TLV_MAX_LEN &&
+		(buf == NULL || (EL_LEAF(element) && buf_size > EL_DAT(element))), __CPROVER_return_value == KSI_INVALID_FORMAT))
 /* C2 size-query mode and write mode report the same size, which is the size written */
 __CPROVER_ensures(IMPLIES(__CPROVER_return_value == KSI_OK && len != NULL, *len == EL_TOT(element, opt)))
 __CPROVER_ensures(IMPLIES(__CPROVER_return_value != KSI_OK && len != NULL, *len == __CPROVER_old(*len)))
 /* C3/C4 nothing that does not fit is reported as written */
 __CPROVER_ensures(IMPLIES(__CPROVER_return_value == KSI_OK && buf != NULL, EL_TOT(element, opt) <= buf_size))
-/* C5 it succeeds whenever it fits (the leaf branch additionally wants one spare octet: tlv_element.c:223 `<=`) */
-__CPROVER_ensures(IMPLIES(buf == NULL || (EL_TOT(element, opt) <= buf_size &&
-		(EL_CHILD(element) || !EL_LEAF(element) || buf_size > EL_DAT(element))), __CPROVER_return_value == KSI_OK))
-/* C6 content longer than the 16-bit length field is refused                               (expected to fail: never checked) */
+/* C5 it succeeds whenever the content is encodable (<= 0xffff, or no header asked for) and it fits
+ * (the leaf branch additionally wants one spare octet: tlv_element.c:223 `<=`) */
+__CPROVER_ensures(IMPLIES((buf == NULL || (EL_TOT(element, opt) <= buf_size &&
+		(EL_CHILD(element) || !EL_LEAF(element) || buf_size > EL_DAT(element)))) &&
+		(EL_CHILD(element) ? !g_el_cur_bad : (!g_el_any_bad && (!EL_HDR(opt) || EL_DAT(element) <= SPEC_TLV_MAX_LEN))), __CPROVER_return_value == KSI_OK))
+/* C6 content longer than the 16-bit length field is refused                               (DESIGN 7-e analogue, fixed by f38b47b) */
 __CPROVER_ensures(IMPLIES(!EL_CHILD(element) && __CPROVER_return_value == KSI_OK && EL_HDR(opt), EL_DAT(element) <= SPEC_TLV_MAX_LEN))
 #ifndef EL_NESTED_LIGHT   /* header and leaf-payload octets: jobs C09.elleaf_* (plain mode); the contract-mode jobs for nested elements carry sizes and tiling only */
 /* C7 header octets = reference encoding of (tag, flags, payload length), short form exactly when allowed */
@@ -66,5 +77,5 @@ __CPROVER_ensures(IMPLIES(!EL_CHILD(element) && !EL_LEAF(element) && __CPROVER_r
 __CPROVER_ensures(IMPLIES(EL_CHILD(element) && __CPROVER_return_value == KSI_OK && buf != NULL && g_el_pos == g_el_w && g_el_k < g_el_cur && g_el_cur <= buf_size,
 		buf[EL_POS(element, opt, buf_size) + g_el_k] == g_el_byte))
 __CPROVER_assigns(len != NULL: *len; buf != NULL: __CPROVER_object_upto(buf, buf_size);
-		!EL_CHILD(element): g_el_calls, g_el_sum, g_el_cur, g_el_pos, g_el_w_right, g_el_w_size, g_el_child);
+		!EL_CHILD(element): g_el_calls, g_el_sum, g_el_cur, g_el_cur_bad, g_el_any_bad, g_el_pos, g_el_w_right, g_el_w_size, g_el_child);
 #endif
